@@ -553,6 +553,18 @@ def sizes_cases(rng: random.Random, thorough: bool):
             lines.append(f"put {bytes([97 + j]).hex()} {big_chunking(seed, L, rng) if j else 'G:%d:%d' % (seed, L)}")
         lines += ["iter", "blobs", "obs", "get 61", "close", "end"]
         cases.append("\n".join(lines) + "\n")
+    # single writes far above every internal block size, alone and after a small first write (and the same
+    # bytes through 4 KiB writes: identical identity), lengths that are no multiple of anything
+    for j, L in enumerate([300001, 1048576 + 12345] + ([3 * 1048576 + 7] if thorough else [])):
+        seed = 200 + j
+        # (an `obs` after every put: each re-put of the same content replaces the blob file)
+        lines = [f"case zbig{j}", "cfg kt=bytes n=100 sync=1", "open",
+                 f"put 61 G:{seed}:{L}", "obs",
+                 f"put 62 G:{seed}:100:0,G:{seed}:{L - 100}:100", "obs", "get 62",
+                 "put 63 " + ",".join(f"G:{seed}:{min(4096, L - o)}:{o}" for o in range(0, L, 4096)), "obs",
+                 f"put 64 G:{seed}:{L - 5000}:0,G:{seed}:5000:{L - 5000}", "obs", "get 64",
+                 "iter", "blobs", "obs", "get 61", "close", "end"]
+        cases.append("\n".join(lines) + "\n")
     return cases
 
 
@@ -704,11 +716,14 @@ def powerloss_corpus():
         "case plc_reput\ncfg kt=bytes n=100 sync=1\nopen\nput 6b31 G:9:50000\nput 6b32 G:9:50000\nput 6b31 G:9:50000\nclose\nend\n",
         "case plc_reput_small\ncfg kt=bytes n=2 sync=1\nopen\nput 61 5858\nput 62 5858\nremove 61\nput 63 5858\nclose\nend\n",
         "case plc_roll\ncfg kt=bytes n=1 sync=1\nopen\nput 61 01\nput 62 G:4:9000\nput 61 02\ncheckpoint\nremove 62\nclose\nend\n",
+        # the same re-put with contents of exactly 1 MiB (size-dependent shortcuts in the commit path; the shim
+        # records the data of writes up to 1 MiB, so larger single writes cannot be used in this suite)
+        "case plc_reput_mib\ncfg kt=bytes n=100 sync=1\nopen\nput 6b31 G:11:1048576\nput 6b32 G:11:1048576\nput 6b33 G:12:1048576\nput 6b31 G:12:1048576\nclose\nend\n",
     ]
 
 
 # ------------------------------------------------------------------ C08: planted garbage and clean-up
-def orphan_case(name, rng: random.Random, noncanonical=False):
+def orphan_case(name, rng: random.Random, noncanonical=False, missing=False):
     """history, then garbage planted into the closed directory is impossible through the API, so
     the garbage is planted BEFORE the first open (the store ignores it until the scan) together with
     leftovers that crashes produce: unreferenced blobs, staging files, bad names at every level"""
@@ -750,6 +765,11 @@ def orphan_case(name, rng: random.Random, noncanonical=False):
     for _ in range(rng.choice([1, 2, 4])):
         k = hexs(rng.choice(keys))
         lines.append(f"put {k} {hexs(rng.choice(contents))}" if rng.random() < 0.8 else f"remove {k}")
+    if missing:
+        # blob files disappear from the closed store while the planted garbage is still there: the next
+        # scan sees referenced-but-absent blobs TOGETHER with orphans, invalid and staging files
+        lines += ["obs", "close"] + [f"rmblob {hexs(c)}" for c in rng.sample(contents, rng.choice([1, 2]))] + ["open", "obs", "close", "end"]
+        return "\n".join(lines) + "\n"
     lines += ["obs", "close", "open", "obs"]
     q = rng.random()
     if q < 0.6:
